@@ -18,6 +18,9 @@ SUITES = {
         "util/zz_verif_drv_test.go": "util_drv_test.go",
         "client/zz_verif_match_test.go": "client_match_test.go",
         "gateway/zz_verif_drv_test.go": "gateway_drv_test.go",
+        "cmd/bisquitt/zz_verif_cli_test.go": "cli_drv_test.go",
+        "cmd/bisquitt-pub/zz_verif_cli_test.go": "cli_drv_test.go",
+        "cmd/bisquitt-sub/zz_verif_cli_test.go": "cli_drv_test.go",
     },
     "codec": {"pkg": "./packets1/", "run": "TestVerifCodec$", "driver": "codec", "timeout": "30m"},
     "topics": {"pkg": "./topics/", "run": "TestVerifTopics$", "driver": "topics", "timeout": "10m"},
@@ -28,12 +31,20 @@ SUITES = {
     "gateway": {"pkg": "./gateway/", "run": "TestVerifGateway$", "driver": "gateway", "timeout": "40m",
                 "generator": "gen_gateway.py", "gen": lambda prop: GW_PROFILES.get(prop, GW_PROFILES["*"]),
                 "case_prefix": "case "},
+    "cli": {"pkg": ["./cmd/bisquitt/", "./cmd/bisquitt-pub/", "./cmd/bisquitt-sub/"], "run": "TestVerifCLI$", "driver": "cli",
+            "timeout": "30m", "parts": ["sub", "pub", "gw"], "generator": "gen_cli.py",
+            "gen": lambda prop: [("sec", 8, 8), ("mix", 25, 300)] if prop == "C31" else [("mix", 30, 400), ("sec", 8, 8)],
+            "case_prefix": "R ", "prepend_corpus": True},
 }
 
 # (profile, cases in the quick tier, cases in the thorough tier) per property: every property sees
 # the general mix; the profiles that stress its own part of the handler get more cases
 GW_PROFILES = {
     "*": [("mix", 500, 5000), ("connect", 200, 2000), ("ids", 150, 1500), ("long", 100, 1000), ("collide", 150, 1500)],
+    "C01": [("mix", 500, 5000), ("predef", 300, 3000), ("ids", 200, 2000), ("long", 100, 1000)],
+    "C02": [("mix", 500, 5000), ("predef", 400, 4000), ("ids", 200, 2000), ("long", 100, 1000)],
+    "C05": [("predef", 800, 8000), ("mix", 200, 2000)],
+    "C32": [("predef", 800, 8000), ("mix", 200, 2000)],
     "C04": [("mix", 300, 3000), ("ids", 600, 6000), ("connect", 100, 1000)],
     "C06": [("mix", 300, 3000), ("collide", 800, 8000)],
     "C07": [("mix", 400, 4000), ("connect", 600, 6000)],
@@ -289,3 +300,46 @@ PROPS["C05"]["suites"] = ["topics", "gateway"]
 _c05rel = PROPS["C05"]["relevant"]
 PROPS["C05"]["relevant"] = lambda line: _c05rel(line) or line.startswith("DIFF gateway-C05 ")
 PROPS["C05"]["level_text"] += "; gateway side: monitor (Spec.c02 projected to predefined IDs) on gateway-suite traces with shadowing configurations"
+
+TB_CLI = TB_COMMON + [
+    "Bisquitt/Model/Cli.lean + Model/Topics.lean: effective mapping = Merge(file, ParsePredefinedTopicOptions(options)); tied by (a) the regenerated AST facts "
+    "Gen.cliPipeline_* / Gen.cliGuard_* (statements of each tool's action that touch the mapping / return the 'insecure' error, with their guarding conditions) and "
+    "(b) the cli suite, which runs the real Application of all three tools with real arguments against a fake MQTT-SN gateway / a fake broker and a scripted "
+    "client on loopback sockets, and (c) the topics suite for Merge / ParsePredefinedTopicOptions themselves",
+    "gopkg.in/yaml decoding of the file written by the harness (names and client IDs double-quoted), urfave/cli flag parsing, the loopback network stack",
+]
+
+PROPS.update({
+    "C30": {
+        "level": "proof",
+        "level_text": "Lean theorems c30_merge (Merge overrides entry by entry), c30_options_later_wins, c30_no_client_is_star / c30_with_client, c30_bad_option_refuses, "
+                      "c30_effective + c30_reads (the binding every tool uses = last option for (client, ID), else the file's; a client reads its own binding, else the '*' one) "
+                      "for ALL files, option lists, clients and IDs, and c30_same_pipeline (regenerated facts: all three tools run file -> options -> Merge(options into file)); "
+                      "tie: the real tools run on generated files and options (which ID each tool uses for each name, which name the gateway forwards each ID under), compared "
+                      "with the model and with an independent statement of the rule (Driver specEntry)",
+        "technique": "Lean 4 theorems over a hand-written model + regenerated AST facts + differential correspondence on the real command-line tools",
+        "suites": ["cli", "topics"],
+        "relevant": lambda line: line.startswith("DIFF cli ") or line.startswith("DIFF topics merge") or line.startswith("DIFF topics parse"),
+        "rule": "cases from lib/gen_cli.py (one seed): a YAML file (0-5 entries over 4 client IDs incl. '*', occasionally a client key with no body), 0-4 options (with and without client ID, "
+                "repeated (client, ID) pairs, malformed ones), 1-5 topic names and 1-3 IDs to query; each case is run through bisquitt-sub (one run, a SUBSCRIBE per name), "
+                "bisquitt-pub (one run per name) and bisquitt (fake broker + scripted client: PUBLISH per predefined ID, broker message per name); every R line is one tool's "
+                "answer for one case; corpus/cli.corpus runs first",
+        "trusted_base": TB_CLI,
+        "assumptions": ["the YAML decoder and the flag parser are trusted", "names and client IDs in generated files are printable (YAML-escaping is the harness')"],
+        "explanation": "theorems c30_* (all inputs); regenerated pipeline facts; real tools vs model and vs the independent rule on generated cases",
+    },
+    "C31": {
+        "level": "proof",
+        "level_text": "TOOLS: Lean theorems c31_guard_facts (regenerated: each tool returns its 'insecure' error exactly under credentials && !useDTLS && !insecure), c31_refuses_iff, "
+                      "c31_never_plaintext; tie: the real tools started with every combination of credentials / --dtls=false / --insecure that runs without a DTLS peer "
+                      "(refused vs started, AUTH seen by the fake gateway). CLIENT LIBRARY half (AUTH after every CONNECT, never without a user): decided by the client suite",
+        "technique": "Lean 4 decision-logic theorem + regenerated AST facts + differential correspondence on the real command-line tools",
+        "suites": ["cli"],
+        "relevant": lambda line: line.startswith("DIFF cli-sec "),
+        "rule": "all 8 combinations of (credentials configured, --dtls unset / =false, --insecure) for each of the three tools, plus the generated configuration cases (AUTH must "
+                "not appear without --user)",
+        "trusted_base": TB_CLI,
+        "assumptions": ["runs with --dtls=true need a DTLS peer and are covered by the regenerated guard condition only"],
+        "explanation": "theorems c31_*; regenerated guard facts; real tools on all runnable flag combinations",
+    },
+})
